@@ -83,8 +83,15 @@ Proof. repeat split; reflexivity. Qed.
 Lemma gexec_offset_1 : gexec_offset = 1.
 Proof. reflexivity. Qed.
 
-Lemma gexec_target_eq fn : gexec_target fn = (fn + 2) mod 4294967296.
+Lemma gexec_target_eq fn : gexec_target fn = ((fn + 2) mod 4294967296) mod 2715648.
 Proof. reflexivity. Qed.
+
+(* for the frame numbers l1_sync passes the uint32 addition does not wrap: the target is the frame two ahead on the hyperframe clock *)
+Lemma target_clock fn : 0 <= fn < 2715648 -> gexec_target fn = (fn + 2) mod 2715648.
+Proof. intros H. rewrite gexec_target_eq. lia. Qed.
+
+Lemma target_range fn : 0 <= gexec_target fn < 2715648.
+Proof. rewrite gexec_target_eq. lia. Qed.
 
 (* ---- sorted insert ---- *)
 Lemma ins_sorted_split e : forall l, exists l1 l2, l = l1 ++ l2 /\ ins_sorted e l = l1 ++ e :: l2 /\
@@ -382,28 +389,24 @@ Proof.
     + apply in_or_app. left. apply -> in_rev. apply in_map. exact HinW.
 Qed.
 
-Lemma target_plain fn F : 0 <= fn -> fn + 2 < F -> F < 4294967296 -> gexec_target fn <> F.
-Proof. intros. rewrite gexec_target_eq. lia. Qed.
-
-Lemma on_time gs s rest si F p3 mid : gs_ok gs -> g_inact gs = s :: rest -> 2 <= F < 4294967296 ->
-  Forall (fun fn => 0 <= fn /\ fn + 2 < F) (exec_fns mid) -> ~ In GReset mid ->
+(* generic form: whatever frame numbers the executes get, as long as none of them targets the event's frame *)
+Lemma fires_when_due gs s rest si F p3 mid fnx : gs_ok gs -> g_inact gs = s :: rest ->
+  Forall (fun fn => gexec_target fn <> F) (exec_fns mid) -> ~ In GReset mid -> gexec_target fnx = F ->
   let e := {| e_slot := s; e_si := si; e_fn := F; e_p3 := p3 |} in
   let gs2 := fst (gs_run gs (GReq si F p3 :: mid)) in
-  let W := snd (gwalk (gexec_target (F - 2)) (g_act gs2)) in
+  let W := snd (gwalk (gexec_target fnx) (g_act gs2)) in
   sched_gsmtime gs si F p3 = (fst (gs_step gs (GReq si F p3)), 0) /\
   (forall fn fired, In (fn, fired) (snd (gs_run gs (GReq si F p3 :: mid))) -> ~ In s (map e_slot fired)) /\
   gs_ok gs2 /\ In e (g_act gs2) /\
   In e W /\ count_occ Nat.eq_dec (map e_slot W) s = 1%nat /\ Forall (fun x => e_fn x = F) W /\
-  ~ In e (g_act (fst (gs_step gs2 (GExec (F - 2))))) /\ In s (g_inact (fst (gs_step gs2 (GExec (F - 2))))).
+  ~ In e (g_act (fst (gs_step gs2 (GExec fnx)))) /\ In s (g_inact (fst (gs_step gs2 (GExec fnx)))).
 Proof.
-  intros Hok Hin HF Hfns Hnr e gs2 W.
+  intros Hok Hin Hfns Hnr Htx e gs2 W.
   assert (Hacc := gsmtime_accept gs si F p3 s rest Hin).
   assert (He1 : In e (g_act (fst (gs_step gs (GReq si F p3))))).
   { cbn [gs_step fst]. rewrite Hacc. cbn [fst g_act]. apply (Permutation_in _ (Permutation_sym (ins_sorted_perm _ _))). left. reflexivity. }
   pose proof (gs_step_ok gs (GReq si F p3) Hok) as Hok1.
-  assert (HF' : Forall (fun fn => gexec_target fn <> e_fn e) (exec_fns mid)).
-  { eapply Forall_impl; [|exact Hfns]. cbv beta. intros fn (H0 & H1). apply target_plain; cbn [e e_fn]; lia. }
-  destruct (pending_through e mid _ Hok1 He1 Hnr HF') as (He2 & Hok2 & Hl2).
+  destruct (pending_through e mid _ Hok1 He1 Hnr Hfns) as (He2 & Hok2 & Hl2).
   assert (Egs2 : gs2 = fst (gs_run (fst (gs_step gs (GReq si F p3))) mid)).
   { unfold gs2. cbn [gs_run]. destruct (gs_step gs (GReq si F p3)) as [ga la]. cbn [fst]. destruct (gs_run ga mid); reflexivity. }
   split. { cbn [gs_step fst]. rewrite Hacc. reflexivity. }
@@ -412,8 +415,47 @@ Proof.
     destruct (gs_run (fst (sched_gsmtime gs si F p3)) mid) as [gb lb] eqn:Eb. cbn [snd app] in Hl.
     cbn [gs_step fst] in Hl2. rewrite Eb in Hl2. cbn [snd] in Hl2. exact (Hl2 fn fired Hl). }
   unfold W. clearbody gs2. subst gs2. split; [exact Hok2|]. split; [exact He2|].
-  assert (Ht : gexec_target (F - 2) = e_fn e) by (rewrite gexec_target_eq; cbn [e e_fn]; lia).
-  pose proof (due_fires _ e (F - 2) Hok2 He2 Ht) as D. cbn zeta in D. exact D.
+  pose proof (due_fires _ e fnx Hok2 He2 Htx) as D. cbn zeta in D. exact D.
+Qed.
+
+(* the hyperframe clock: j consecutive frame numbers from t on, modulo 2715648 *)
+Definition clock (t : Z) (j : nat) : list Z := map (fun i => (t + Z.of_nat i) mod 2715648) (seq 0 j).
+
+Lemma clock_no_target t F j : 0 <= t < 2715648 -> 0 <= F < 2715648 -> Z.of_nat j = (F - 2 - t) mod 2715648 ->
+  Forall (fun fn => gexec_target fn <> F) (clock t j) /\ gexec_target ((F - 2) mod 2715648) = F /\ (t + Z.of_nat j) mod 2715648 = (F - 2) mod 2715648.
+Proof.
+  intros Ht HF Hj. split; [|split].
+  - unfold clock. apply Forall_forall. intros fn Hin. apply in_map_iff in Hin as (i & <- & Hi). apply in_seq in Hi.
+    rewrite target_clock by lia. intros E.
+    assert (Hi' : 0 <= Z.of_nat i < Z.of_nat j) by lia. clear Hi. revert E Hj Hi'. generalize (Z.of_nat i) (Z.of_nat j). intros x y E Hj Hx. lia.
+  - rewrite target_clock by lia. lia.
+  - lia.
+Qed.
+
+(* exactly once, on time, on the hyperframe clock - frames 0 and 1 and stale requests included *)
+Lemma on_time gs s rest si t F p3 mid j : gs_ok gs -> g_inact gs = s :: rest ->
+  0 <= t < 2715648 -> 0 <= F < 2715648 -> Z.of_nat j = (F - 2 - t) mod 2715648 ->
+  exec_fns mid = clock t j -> ~ In GReset mid ->
+  let e := {| e_slot := s; e_si := si; e_fn := F; e_p3 := p3 |} in
+  let gs2 := fst (gs_run gs (GReq si F p3 :: mid)) in
+  let fx := (F - 2) mod 2715648 in
+  let W := snd (gwalk (gexec_target fx) (g_act gs2)) in
+  fx = (t + Z.of_nat j) mod 2715648 /\
+  sched_gsmtime gs si F p3 = (fst (gs_step gs (GReq si F p3)), 0) /\
+  (forall fn fired, In (fn, fired) (snd (gs_run gs (GReq si F p3 :: mid))) -> ~ In s (map e_slot fired)) /\
+  gs_ok gs2 /\ In e (g_act gs2) /\
+  In e W /\ count_occ Nat.eq_dec (map e_slot W) s = 1%nat /\ Forall (fun x => e_fn x = F) W /\
+  ~ In e (g_act (fst (gs_step gs2 (GExec fx)))) /\ In s (g_inact (fst (gs_step gs2 (GExec fx)))).
+Proof.
+  intros Hok Hin Ht HF Hj Hfns Hnr e gs2 fx W.
+  destruct (clock_no_target t F j Ht HF Hj) as (Hno & Htx & Hfx). rewrite <- Hfns in Hno.
+  split; [symmetry; exact Hfx|]. exact (fires_when_due gs s rest si F p3 mid fx Hok Hin Hno Hnr Htx).
+Qed.
+
+(* a request with a frame number outside the hyperframe is never handed over *)
+Lemma out_of_range_never fn l e : In e (snd (gwalk (gexec_target fn) l)) -> 0 <= e_fn e < 2715648.
+Proof.
+  intros Hin. pose proof (gwalk_fired_due (gexec_target fn) l) as HF. rewrite Forall_forall in HF. rewrite (HF e Hin). apply target_range.
 Qed.
 
 (* ---- -EBUSY exactly when all 16 slots are pending; reset ---- *)
@@ -510,16 +552,7 @@ Proof.
   exact (held_runs_on_time rcf ts' (1 + k) _ it mid W1 K1 N1 Hr ltac:(lia) Hh HF HF16 Hadv Hnr Hex).
 Qed.
 
-(* ---- the hyperframe wrap: frames 0 and 1 are never reached ---- *)
-Lemma target_never_01 fn : 0 <= fn < 2715648 -> gexec_target fn <> 0 /\ gexec_target fn <> 1.
-Proof. intros H. rewrite gexec_target_eq. lia. Qed.
-
-Lemma frame01_never_handed_over fn l e : 0 <= fn < 2715648 -> In e (snd (gwalk (gexec_target fn) l)) -> e_fn e <> 0 /\ e_fn e <> 1.
-Proof.
-  intros Hfn Hin. pose proof (gwalk_fired_due (gexec_target fn) l) as HF. rewrite Forall_forall in HF. rewrite (HF e Hin).
-  apply target_never_01. exact Hfn.
-Qed.
-
+(* ---- the hyperframe wrap ---- *)
 (* n frame interrupts as l1_sync() does them, the frame number counting modulo the hyperframe *)
 Fixpoint frames (n : nat) (fn : Z) : list gop :=
   match n with
@@ -538,22 +571,25 @@ Fixpoint ran (i : Z) (obs : list gobs) : list (Z * list item) :=
   | _ :: r => ran i r
   end.
 
-(* refuted: "an event requested for frame F, at least 2 frames ahead, runs in frame F" fails across the hyperframe wrap.
-   Frame 2715640, the event is requested for frame 0 = (2715640 + 8) mod 2715648 (prim_rach.c: fn_sched %= GSM_MAX_FN): in the next
-   40 frame interrupts (frames 2715640 .. 2715647, 0 .. 31) nothing is handed over, nothing runs, the event stays pending and keeps
-   its slot; the same request for frame 2 runs in interrupt 9 (frame 1 = 2 - SCHEDULE_LATENCY) *)
-Lemma frame01_refuted :
-  (forall fn l e, 0 <= fn < 2715648 -> In e (snd (gwalk (gexec_target fn) l)) -> e_fn e <> 0 /\ e_fn e <> 1) /\
-  (match g_run ex_rcf (init 7) gs_init (GReq ex_set_b 0 77 :: frames 40 2715640) with
-   | (obs, GFOk ts gs) => (ran 0 obs, length (qlog obs), length (concat (qlog obs)), stored ts, map e_fn (g_act gs), length (g_inact gs))
-   | _ => ([], O, O, -1, [], O)
-   end = ([], 40%nat, 0%nat, 0, [0], 15%nat)) /\
-  (match g_run ex_rcf (init 7) gs_init (GReq ex_set_b 2 77 :: frames 40 2715640) with
-   | (obs, GFOk ts gs) => (ran 0 obs, map e_fn (g_act gs), length (g_inact gs))
-   | _ => ([], [], O)
-   end = ([(9, [ex_item 3 3 33 77 0])], [], 16%nat)).
+(* non-vacuity across the wrap: frame 2715640, events requested for the frames 0, 1, 2 and 2715647 of the clock (8, 9, 10, 7 frames
+   ahead): handed over by the executes of the frames 2715646, 2715647, 0, 2715645 (interrupts 6, 7, 8, 5), their items run one interrupt
+   later (frame F - 1); a STALE request (frame 2715639, already passed) is still pending after these 40 interrupts and keeps its slot:
+   it fires when the clock comes round, a hyperframe later *)
+Example ex_gsm_wrap :
+  match g_run ex_rcf (init 7) gs_init
+          (GReq ex_set_b 0 70 :: GReq ex_set_b 1 71 :: GReq ex_set_b 2 72 :: GReq ex_set_b 2715647 73 :: GReq ex_set_b 2715639 74 :: frames 40 2715640) with
+  | (obs, GFOk ts gs) => (ran 0 obs, map (map e_fn) (firstn 10 (qlog obs)), map e_fn (g_act gs), length (g_inact gs))
+  | _ => ([], [], [], O)
+  end = ([(6, [ex_item 3 3 33 73 0]); (7, [ex_item 3 3 33 70 0]); (8, [ex_item 3 3 33 71 0]); (9, [ex_item 3 3 33 72 0])],
+         [[]; []; []; []; []; [2715647]; [0]; [1]; [2]; []], [2715639], 15%nat).
+Proof. vm_compute. reflexivity. Qed.
+
+Example ex_gsm_wrap_hypotheses :
+  gs_ok gs_init /\ g_inact gs_init = 15%nat :: rev (seq 0 15) /\ Z.of_nat 6 = (0 - 2 - 2715640) mod 2715648 /\
+  exec_fns (frames 6 2715640) = clock 2715640 6 /\ ~ In GReset (frames 6 2715640) /\ (0 - 2) mod 2715648 = 2715646.
 Proof.
-  split; [exact frame01_never_handed_over|]. split; vm_compute; reflexivity.
+  split; [exact gs_init_ok|]. split; [reflexivity|]. split; [reflexivity|]. split; [reflexivity|]. split; [|reflexivity].
+  intros H. vm_compute in H. repeat (destruct H as [H|H]; [discriminate|]). exact H.
 Qed.
 
 (* ---- non-vacuity: requests in descending frame order (230, then 220, then one more for 230), 35 frame interrupts from frame 200 ---- *)
@@ -569,12 +605,11 @@ Example ex_gsm_descending :
 Proof. vm_compute. reflexivity. Qed.
 
 Example ex_gsm_on_time_hypotheses :
-  gs_ok gs_init /\ g_inact gs_init = 15%nat :: rev (seq 0 15) /\
-  Forall (fun fn => 0 <= fn /\ fn + 2 < 230) (exec_fns (GReq ex_set_b 220 772 :: frames 28 200)) /\ ~ In GReset (GReq ex_set_b 220 772 :: frames 28 200).
+  gs_ok gs_init /\ g_inact gs_init = 15%nat :: rev (seq 0 15) /\ Z.of_nat 28 = (230 - 2 - 200) mod 2715648 /\
+  exec_fns (GReq ex_set_b 220 772 :: frames 28 200) = clock 200 28 /\ ~ In GReset (GReq ex_set_b 220 772 :: frames 28 200).
 Proof.
-  split; [exact gs_init_ok|]. split; [reflexivity|]. split.
-  - apply Forall_forall. intros fn H. vm_compute in H. repeat (destruct H as [<-|H]; [lia|]). destruct H.
-  - intros H. vm_compute in H. repeat (destruct H as [H|H]; [discriminate|]). exact H.
+  split; [exact gs_init_ok|]. split; [reflexivity|]. split; [reflexivity|]. split; [reflexivity|].
+  intros H. vm_compute in H. repeat (destruct H as [H|H]; [discriminate|]). exact H.
 Qed.
 
 (* 17 requests: the 17th answers -EBUSY and changes nothing *)
